@@ -199,7 +199,105 @@ func flat(root string, rel []string) string {
 	if len(rel) == 0 {
 		return root
 	}
-	return root + "_" + strings.Join(rel, "_")
+	return root + "_" + strings.ReplaceAll(strings.Join(rel, "_"), "()", "")
+}
+
+// Opaque methods: results of an untranslated, argument-less method called on
+// the loop element (configured per function in opaqueMethods) are DATA of the
+// element: a pseudo-field "M()" of the projection whose Coq type is the tuple
+// of the method's results. Assumes the method is a pure function of the
+// element (stated in the trusted base of the property using the unit).
+var opaqueMethods = map[string]map[string]bool{
+	"src/coin.Transactions.TruncateBytesTo": {"Size": true},
+}
+
+var opaqueTypes = map[string]string{} // "M()" -> Coq type
+
+func isOpaqueField(rel []string) bool {
+	return len(rel) > 0 && strings.HasSuffix(rel[len(rel)-1], "()")
+}
+
+func projFieldType(rel []string) string {
+	if isOpaqueField(rel) {
+		return opaqueTypes[rel[len(rel)-1]]
+	}
+	return "Z"
+}
+
+func (t *tr) opaqueCall(c *ast.CallExpr, fn *types.Func) (ex, bool) {
+	sel, ok := c.Fun.(*ast.SelectorExpr)
+	if !ok || len(c.Args) != 0 || !t.opaque[fn.Name()] || t.loop == nil {
+		return ex{}, false
+	}
+	root, rel, ok := t.pathOf(sel.X)
+	if !ok || !t.isElem(root) || len(rel) != 0 {
+		return ex{}, false
+	}
+	sig := fn.Type().(*types.Signature)
+	parts := []string{}
+	for i := 0; i < sig.Results().Len(); i++ {
+		parts = append(parts, t.coqType(sig.Results().At(i).Type(), c))
+	}
+	if len(parts) == 0 {
+		return ex{}, false
+	}
+	ty := parts[0]
+	if len(parts) > 1 {
+		ty = "(" + strings.Join(parts, " * ") + ")"
+	}
+	key := fn.Name() + "()"
+	if old, ok := opaqueTypes[key]; ok && old != ty {
+		fail(t.fset, c, "opaque method %s used with two result types", key)
+	}
+	opaqueTypes[key] = ty
+	s := t.slices[t.loop.slice]
+	if _, ok := s.used[key]; !ok {
+		if t.proj != nil {
+			found := false
+			for _, f := range t.proj[t.loop.slice] {
+				if strings.Join(f, ".") == key {
+					found = true
+				}
+			}
+			if !found {
+				fail(t.fset, c, "internal: opaque field %s discovered in the second pass", key)
+			}
+		}
+		s.used[key] = []string{key}
+	}
+	return ex{"Val " + flat(root, []string{key}), true}, true
+}
+
+// sliceValue: a slice-typed result — nil, the slice parameter itself, or
+// X[:i] with i the index of the enclosing range loop over X
+func (t *tr) sliceValue(e ast.Expr) ex {
+	if isNil(e) {
+		return pure("[]")
+	}
+	use := func(sn string) {
+		if t.loop != nil {
+			t.loop.use(sn, t.sliceCoqType(sn))
+		}
+	}
+	if se, ok := e.(*ast.SliceExpr); ok {
+		sn, ok := t.slicePath(se.X, true)
+		if !ok || se.Low != nil || se.Max != nil || se.High == nil || t.loop == nil || sn != t.loop.slice {
+			fail(t.fset, e, "slice expression other than X[:i] in the range loop over X")
+		}
+		id, ok := se.High.(*ast.Ident)
+		if !ok || t.info.Uses[id] != t.loop.idxObj {
+			fail(t.fset, e, "slice bound must be the index of the enclosing range loop")
+		}
+		t.loop.idxUsed = true
+		use(sn)
+		return pure(fmt.Sprintf("firstn (Z.to_nat %s) %s", san(id.Name), sn))
+	}
+	if sn, ok := t.slicePath(e, true); ok {
+		use(sn)
+		return pure(sn)
+	}
+	fail(t.fset, e, "slice-valued result")
+	return ex{}
 }
 
 func (t *tr) isElem(root string) bool { return t.loop != nil && root == t.loop.elem }
@@ -284,6 +382,17 @@ func (s *sliceInfo) projection() [][]string {
 			out = append(out, p)
 		}
 	}
+	// results of opaque methods come after the fields, by name
+	var ops []string
+	for k, rel := range s.used {
+		if isOpaqueField(rel) {
+			ops = append(ops, k)
+		}
+	}
+	sort.Strings(ops)
+	for _, k := range ops {
+		out = append(out, s.used[k])
+	}
 	return out
 }
 
@@ -293,10 +402,10 @@ func elemCoqType(proj [][]string) string {
 	}
 	zs := make([]string, len(proj))
 	for i := range zs {
-		zs[i] = "Z"
+		zs[i] = projFieldType(proj[i])
 	}
 	if len(zs) == 1 {
-		return "Z"
+		return zs[0]
 	}
 	return "(" + strings.Join(zs, " * ") + ")"
 }
@@ -523,6 +632,10 @@ func (t *tr) resCoqType(at ast.Node) string {
 	}
 	parts := []string{}
 	for _, ty := range t.resTy {
+		if _, ok := sliceOfStruct(ty); ok {
+			parts = append(parts, t.sliceResultType(ty, at))
+			continue
+		}
 		parts = append(parts, t.coqType(ty, at))
 	}
 	if len(parts) == 1 {
@@ -726,6 +839,10 @@ func paramDoc(name string, ps []paramInfo) (string, []manifestParam) {
 		if p.Slice {
 			fs := []string{}
 			for _, f := range p.Proj {
+				if isOpaqueField(f) {
+					fs = append(fs, strings.Join(f, ".")+" [results of the method, as data : "+projFieldType(f)+"]")
+					continue
+				}
 				fs = append(fs, strings.Join(f, "."))
 			}
 			m.ElemFields = fs
@@ -776,4 +893,23 @@ func (t *tr) noJumps(body ast.Node, what string) {
 		}
 		return true
 	})
+}
+
+// sliceResultType: a result of slice type is a sub-list of the one slice
+// parameter of the same Go type
+func (t *tr) sliceResultType(ty types.Type, at ast.Node) string {
+	want := types.TypeString(ty, func(p *types.Package) string { return p.Name() })
+	found := ""
+	for _, sn := range t.sliceOrder {
+		if t.slices[sn].goTy == want {
+			if found != "" {
+				fail(t.fset, at, "slice result of type %s: two candidate parameters", want)
+			}
+			found = sn
+		}
+	}
+	if found == "" {
+		fail(t.fset, at, "slice result of type %s: no parameter of that type", want)
+	}
+	return t.sliceCoqType(found)
 }
